@@ -122,6 +122,8 @@ type vPipeCase struct {
 	// ViaRPC: trigger and record-length requests reach the source as a client's do, through the methods of a real SourceControl
 	// (which converts compatibility fields, validates, queues the request for the core loop and reports the new state)
 	ViaRPC bool `json:"via_rpc,omitempty"`
+	// EmptyBlocks: blocks of length 0 are allowed (the ROACH source forwards a block even when its packets hold no samples)
+	EmptyBlocks bool `json:"empty_blocks,omitempty"`
 }
 
 func vNoise(seed, i int) int {
@@ -239,7 +241,7 @@ func (c *vPipeCase) valid() bool {
 	}
 	total := 0
 	for _, b := range c.Blocks {
-		if b < 1 || b > 100000 {
+		if b < 0 || (b == 0 && !c.EmptyBlocks) || b > 100000 {
 			return false
 		}
 		total += b
